@@ -6,10 +6,10 @@
    force outside - is constant, time advances by rate x beats plus the full length of every stop whose
    STOP_END key and every delay whose DELAY_END key is passed.  Monotonicity in (beat, tag), the offset
    law, the BPM reported for a beat and the ordering / coalescing invariants are separate theorems.
-   Left to the correspondence: the binary64 gap (measured, 1e-9 s), and the redundant-BPM law as a
-   statement about two timing data (it follows from the interval law, whose premises do not change). *)
+   C11_redundant_bpm: inserting a BPM row that repeats the BPM in force changes no time_at answer.
+   Left to the correspondence: the binary64 gap (measured, 1e-9 s) and queries tagged WARP / WARP_END. *)
 From Coq Require Import List ZArith QArith Bool Sorting.Sorted Lia Lqa.
-From SV Require Import Sx Beat Engine Generated.Tables Proofs.EngineFacts Proofs.Hittable Proofs.TimeLaw.
+From SV Require Import Sx Beat Engine Generated.Tables Proofs.EngineFacts Proofs.Hittable Proofs.TimeLaw Proofs.RedundantBpm.
 Import ListNotations.
 Open Scope Q_scope.
 
@@ -95,6 +95,18 @@ Theorem C11_time_monotone : forall td b0 v0 rest, dom td -> td_bpms td = (b0, v0
 Proof. exact time_at_monotone_all. Qed.
 Print Assumptions C11_time_monotone.
 
+(* inserting a BPM change that repeats the BPM already in force changes no answer: td' is td with the row (x, v)
+   inserted among the BPMS, everything else equal, v the BPM in force at x in td *)
+Theorem C11_redundant_bpm : forall td td' b0 v0 pre post x v,
+  dom td -> dom td' ->
+  td_bpms td = (b0, v0) :: pre ++ post -> td_bpms td' = (b0, v0) :: pre ++ (x, v) :: post -> b0 == 0 ->
+  (td_stops td' = td_stops td /\ td_delays td' = td_delays td /\ td_warps td' = td_warps td /\ td_offset td' = td_offset td) ->
+  bpm_in_force td x v ->
+  forall b tag, 0 <= b -> (2 <= tag)%Z ->
+  time_at (sts td' v0) (init_state td' v0) b tag == time_at (sts td v0) (init_state td v0) b tag.
+Proof. exact redundant_bpm. Qed.
+Print Assumptions C11_redundant_bpm.
+
 (* the BPM reported for a beat is the value of the last BPM change at or before it (the first BPM before zero) *)
 Theorem C11_bpm_at : forall td b0 v0 rest, dom td -> td_bpms td = (b0, v0) :: rest -> b0 == 0 ->
   forall b, (0 <= b -> bpm_in_force td b (bpm_at (sts td v0) (init_state td v0) b)) /\
@@ -139,4 +151,17 @@ Proof.
       intros b' v' [Hin|[Hin|[]]] Hle; inversion Hin; subst; lra.
   - intros x H4 H6. left. split; [|reflexivity]. exists 4, 2. split; [left; reflexivity|]. split; [exact H4|].
     assert (E : tick_round 2 == 2) by (vm_compute; reflexivity). rewrite E. lra.
+Qed.
+
+(* non-vacuity of the redundant-BPM law: a row (2, 120) repeats the BPM in force on ex_td *)
+Definition ex_td' : tdata :=
+  {| td_bpms := [(0, 120); (2, 120); (9 # 2, 240)]; td_stops := [(4, 1 # 2)]; td_delays := [(4, 1 # 4)]; td_warps := [(4, 2)]; td_offset := 0 |}.
+Example C11_redundant_premises : dom ex_td' /\ bpm_in_force ex_td 2 120 /\
+  Qeq_bool (match states ex_td' with EOk sts => time_at sts (init_state ex_td' 120) 7 tSTOP | _ => 0 end) 3 = true.
+Proof.
+  split; [|split].
+  - constructor; unfold ex_td'; cbn [td_bpms td_stops td_delays td_warps td_offset];
+      try (repeat constructor; cbn; unfold Qlt, Qle; simpl; lia).
+  - exists 0. split; [left; reflexivity|]. split; [lra|]. intros b' v' [H|[H|[]]] Hle; inversion H; subst; lra.
+  - vm_compute. reflexivity.
 Qed.
